@@ -574,6 +574,27 @@ func c11SrvValid(s *c11Srv) bool {
 	return true
 }
 
+// c11NewSpec is supervisor.NewSpec with a per-process memo: a text that has
+// already passed the real NewSpec (validation takes ~1 ms per filter) is
+// decoded again into a fresh, independent Spec without being validated again.
+// A prototype is never handed out, every caller gets its own object.
+var c11SpecProtos = map[string]*supervisor.Spec{}
+
+func c11NewSpec(text string) (*supervisor.Spec, error) {
+	if p := c11SpecProtos[text]; p != nil {
+		return supervisor.C11Respec(p), nil
+	}
+	sp, err := supervisor.NewSpec(text)
+	if err != nil || sp == nil {
+		return sp, err
+	}
+	if len(c11SpecProtos) < 50000 {
+		c11SpecProtos[text] = sp
+		return supervisor.C11Respec(sp), nil
+	}
+	return sp, nil
+}
+
 // ---- request execution helpers (all modes) -----------------------------------------
 
 const c11SeenHdr = "X-C11-Seen"
@@ -719,7 +740,7 @@ func c11ExecMux(r *sim.Run, sc *c11MuxSc) {
 			return
 		}
 		txt := c11SrvText("c11", &sc.Gens[i])
-		sp, err := supervisor.NewSpec(txt)
+		sp, err := c11NewSpec(txt)
 		if err != nil || sp == nil {
 			r.Probe("c11.mux.spec_rejected")
 			return
